@@ -748,6 +748,25 @@ fn stage_alpn(ctx: &mut Ctx, env: &mut Env, idx: &mut u64) {
         }
     }
     ctx.exhaustive("all 62x62 (first,last) ASCII-alphanumeric pairs as two-byte first ALPN protocol");
+    // edge bytes that are not alphanumeric: punctuation, space, control, DEL, non-ASCII
+    *idx += 1;
+    if ctx.mine(*idx) {
+        let edges: Vec<u8> = vec![b'-', b'.', b'/', b'_', b'+', b' ', b'=', b'~', b'!', 0x00, 0x09, 0x1f, 0x7f, 0x80, 0xc3, 0xff, b'a', b'9', b'Z'];
+        for &f in &edges {
+            for &l in &edges {
+                for len in [2usize, 3, 6] {
+                    let mut p = vec![f];
+                    for _ in 0..len - 2 {
+                        p.push(*r.pick(&alnum));
+                    }
+                    p.push(l);
+                    let h = mk(p, &[b"h2"], len == 3);
+                    check(ctx, env, &h, "alpn-edge-bytes", Paths::Parse);
+                }
+            }
+        }
+        ctx.exhaustive("all (first,last) pairs over 19 edge bytes (punctuation, space, control, DEL, non-ASCII, alphanumeric) x name lengths 2, 3, 6");
+    }
     // real-world protocol ids, in first position with others behind
     *idx += 1;
     if ctx.mine(*idx) {
@@ -998,7 +1017,7 @@ pub fn spec() -> PropSpec {
         assumptions: &[
             "judged hellos are RFC-conformant: one ClientHello handshake message in one TLSPlaintext record of at most 2^14 bytes, record version 0x0300..=0x0304 for the packet-level entry points, no duplicate extension types, extension types with an RFC-defined structure carry well-formed bodies, host names are ASCII, non-empty ALPN / signature_algorithms lists",
             "version characters and the version field are judged when supported_versions is absent (legacy version other than SSL2 0x0002) or contains at least one non-GREASE value and either its numeric maximum is one of 0x0300..=0x0304 or none of its values is (draft and unknown codes alone: code 00); other lists (empty, all-GREASE, an unknown code above a known one, DTLS/SSL2 codes) are run with the two version characters masked",
-            "the two ALPN characters are judged when there is no ALPN extension or the first protocol has at least 2 bytes and its first and last bytes are ASCII alphanumerics; other first protocols are run with those two characters masked (the published text changed over time); the alpn field is judged only for UTF-8 protocol names",
+            "the two ALPN characters are judged when there is no ALPN extension or the first protocol has at least 2 bytes and its first and last bytes are ASCII alphanumerics; a first protocol of at least 2 bytes with a non-alphanumeric first or last byte must give one of the two values the published editions define (the bytes themselves with 9 for a non-ASCII byte, or the first and last hex digit of the name); one-byte and empty first protocols are run with those two characters masked; the alpn field is judged only for UTF-8 protocol names",
             "the reported cipher_suites / extensions / signature_algorithms / elliptic_curves lists may be the wire list or the wire list without GREASE (the property text is ambiguous); order and all other values are judged",
             "a signature_algorithms list holding only GREASE values counts as 'no signature algorithms' (GREASE is ignored everywhere)",
             "TLS over TCP only ('t'); QUIC and DTLS hellos are not generated",
